@@ -1233,7 +1233,8 @@ def mon_micro(pid, sched, recs):
       balances    at every state, worker windows included, while the flag is down: KeysAdded - KeysDeleted = stored keys and
                   WeightAdded - WeightRemoved = total (mod 2^64)
       acks        once the worker has executed Shutdown (or has died after shutdown() was called) no acknowledgement is pending
-      hits        while the flag is down: hits = buffered + AccessAdded + AccessDropped + reads stopped between lookup and record"""
+      hits        until shutdown() zeroes the statistics (a read that passed its flag check is still recorded after the flag is
+                  raised): hits = buffered + AccessAdded + AccessDropped + reads stopped between lookup and record"""
     checks = MICRO_CHECKS.get(pid, ())
     cfg = full_cfg(sched["cfg"])
     fails = []
@@ -1241,6 +1242,8 @@ def mon_micro(pid, sched, recs):
     worker_inside = False
     marked = {}             # key -> id of the entry that was soft-marked by a delete
     flag_up = False
+    stats_cleared = False   # shutdown() has zeroed the statistics
+    shutting = set()        # callers stopped inside shutdown()
 
     def fail(sig, what, i):
         fails.append(dict(signature=sig, what=what, name=sched["name"], config=sched["cfg"], events=sched["events"][: i + 1], index=i))
@@ -1315,7 +1318,13 @@ def mon_micro(pid, sched, recs):
             st = snap["stats"]
             if (st[2] - st[3]) % U64 != len(snap["store"]) % U64 or (st[6] - st[7]) % U64 != snap["used"] % U64:
                 fail("micro-balance-broken", "KeysAdded %d - KeysDeleted %d vs %d stored keys; WeightAdded %d - WeightRemoved %d vs total %d" % (st[2], st[3], len(snap["store"]), st[6], st[7], snap["used"]), i)
-        if "hits" in checks and snap["shut"] == 0 and not flag_up:
+        # shutdown(): the statistics are zeroed by its AdmissionPolicy::clear; from then on the identity is void
+        if label in ("shutdown.policy_cleared",) or (began and began[0] == "shutdown" and not stopped and bool(ret) and ret[0] == 5) or \
+           (p[0] == "run" and not stopped and bool(ret) and ret[0] == 5 and p[1] in shutting):
+            stats_cleared = True
+        if began and began[0] == "shutdown" and (stopped or (bool(ret) and ret[0] == 3)):
+            shutting.add(p[1])      # stopped at a schedule point inside shutdown(), or parked in front of a full queue / channel
+        if "hits" in checks and not stats_cleared and not r.get("stale_snap"):
             inflight = sum(1 for v in at.values() if v[2] == "read.hit")
             st = snap["stats"]
             buffered = sum(len(b) for b in snap["pool"])
